@@ -130,6 +130,28 @@ fn main() {
             }
             let outb: [u8; 32] = b.finalize().into();
             println!("set={} behave={}", p.id, hex::encode(outb));
+            // ---- rare-event digest (same stream as featprobe) ----
+            let mut r = Sha256::new();
+            let lines: Vec<String> = args.get(4).map(|f| std::fs::read_to_string(f).expect("rare-event file").lines().map(str::to_string).collect()).unwrap_or_default();
+            for line in &lines {
+                let f: Vec<&str> = line.split_whitespace().collect();
+                if f.len() < 3 || f[1].parse::<u32>().ok() != Some(p.id) {
+                    continue;
+                }
+                let xi = hex::decode(f[2]).expect("xi");
+                let (pk, sk) = refmodel::keygen_internal(&p, &xi);
+                let (m, rnd): (Vec<u8>, Vec<u8>) = if f[0] == "S" { (hex::decode(f[3]).expect("msg"), hex::decode(f[4]).expect("rnd")) } else { (b"rare".to_vec(), h("rare-rnd", p.id, 0, 0).to_vec()) };
+                if f[0] == "K" {
+                    r.update(&pk);
+                    r.update(&sk);
+                    r.update(&pk);
+                }
+                let (sig, _) = refmodel::sign(&p, &sk, &m, &[], refmodel::Mode::Pure, &rnd, 100_000).expect("reference sign");
+                r.update(&sig);
+                r.update([u8::from(refmodel::verify(&p, &pk, &m, &sig, &[], refmodel::Mode::Pure).accepted())]);
+            }
+            let outr: [u8; 32] = r.finalize().into();
+            println!("set={} rare={}", p.id, hex::encode(outr));
         }
         return;
     }
@@ -204,6 +226,54 @@ fn main() {
         eprintln!("searched {n} candidates in {:.0}s", t0.elapsed().as_secs_f64());
         return;
     }
+    if cmd == "xofsearch" {
+        // vcheck xofsearch <set> <millions>: key-generation seeds with rare sampler events (JSON on stdout)
+        let p = refmodel::params(args[2].parse().expect("set"));
+        let n: u64 = (args[3].parse::<f64>().expect("millions") * 1e6) as u64;
+        let found = fips204_verif::gen::xofsearch::search(&p, n);
+        for e in &found {
+            // cross-check the event counters against the reference model's own sampler statistics
+            let xi = hex::decode(&e.xi).expect("hex");
+            let mut st = refmodel::KeygenStats::default();
+            let _ = refmodel::keygen_internal_stats(&p, &xi, &mut st);
+            assert_eq!(st.sample.rej3, u64::from(e.total_rej), "xofsearch disagrees with the reference model on {}", e.xi);
+        }
+        println!("{}", serde_json::to_string_pretty(&found).expect("json"));
+        eprintln!("searched {n} seeds for set {} in {:.0}s", p.id, t0.elapsed().as_secs_f64());
+        return;
+    }
+    if cmd == "sigsearch" {
+        // vcheck sigsearch <set> <millions>: genuine signatures with extreme SampleInBall runs (JSON on stdout).
+        // The library signs (speed); every kept tuple is re-signed by the reference model, which must agree.
+        let p = refmodel::params(args[2].parse().expect("set"));
+        let n: u64 = (args[3].parse::<f64>().expect("millions") * 1e6) as u64;
+        let libr = fips204_verif::libapi::lib(p.id);
+        let xis: Vec<[u8; 32]> = (0..4u64).map(|k| fips204_verif::gen::Seed32::Uniform(k).bytes()).collect();
+        let keys: Vec<_> = xis.iter().map(|xi| libr.keygen_from_seed(xi).1).collect();
+        let sign = |xi: &[u8; 32], m: &[u8], rnd: &[u8; 32]| -> Option<Vec<u8>> {
+            let k = &keys[xis.iter().position(|x| x == xi).expect("key index")];
+            let mut rng = fips204_verif::libapi::TestRng::replay(rnd);
+            k.sign(&mut rng, m, &[], refmodel::Mode::Pure).ok()
+        };
+        let mut found = fips204_verif::gen::xofsearch::sig_search(&p, n, &sign);
+        for e in found.iter_mut() {
+            let (xi, m, rnd) = (hex::decode(&e.xi).expect("hex"), hex::decode(&e.msg).expect("hex"), hex::decode(&e.rnd).expect("hex"));
+            let (_, sk) = refmodel::keygen_internal(&p, &xi);
+            let (rsig, d) = refmodel::sign(&p, &sk, &m, &[], refmodel::Mode::Pure, &rnd, 100_000).expect("reference sign");
+            let (run, tot) = fips204_verif::gen::xofsearch::sib_stats(&p, &rsig[..p.ctilde_len()]);
+            assert_eq!((run, tot), (e.sib_max_run, e.sib_total_rej), "sigsearch: the reference model signs this tuple differently");
+            e.iterations = d.iterations;
+        }
+        println!("{}", serde_json::to_string_pretty(&found).expect("json"));
+        eprintln!("searched {n} signatures for set {} in {:.0}s", p.id, t0.elapsed().as_secs_f64());
+        return;
+    }
+    if cmd == "osrng-probe" {
+        for l in props::c12::os_rng_probe_lines() {
+            println!("{l}");
+        }
+        return;
+    }
     if cmd == "constants" {
         for c in fips204_verif::gen::source_constants() {
             println!("{}", hex::encode(c));
@@ -249,6 +319,7 @@ fn main() {
     let seed: u64 = arg(&args, "--seed").and_then(|s| s.parse().ok()).unwrap_or(204);
     let report_path = arg(&args, "--report");
     let ctx = Ctx { tier, seed, root };
+    let prelude_calls = if matches!(cmd, "run" | "replay") && std::env::var("VERIF_NO_PRELUDE").is_err() { props::history_prelude() } else { 0 };
     let rep: Report = match cmd {
         "run" => match props::run(&id, &ctx) {
             Some(r) => r,
@@ -293,6 +364,9 @@ fn main() {
         }
     };
     let mut rep = rep;
+    if prelude_calls > 0 {
+        rep.note(format!("process history: {prelude_calls} ordinary API calls (failing generators with every error code, over-long contexts, malformed keys, junk signatures, repeated rnd, OS-RNG calls) were made before the first case; the properties must hold whatever the process did before"));
+    }
     let abandoned = fips204_verif::engine::ABANDONED.load(std::sync::atomic::Ordering::Relaxed);
     if abandoned > 0 {
         rep.note(format!("{abandoned} call(s) of the code under test did not return within their time limit and were abandoned"));
